@@ -175,15 +175,90 @@ func cmdReplay(args []string) int {
 		fmt.Fprintln(os.Stderr, err)
 		return 2
 	}
-	rp := newNativeReplayer(rf.Dir, ov, workDir)
-	defer rp.close()
 	abs, _ := filepath.Abs(args[0])
-	ok, out := rp.confirm(abs, rf)
-	fmt.Println(out)
-	if ok {
+	engineOnly := rf.NoNative || rf.Clock == "sym" || strings.HasSuffix(rf.Label, "/alloc-proportional-to-input") || strings.HasSuffix(rf.Label, "/unbounded-work")
+	if !engineOnly {
+		rp := newNativeReplayer(rf.Dir, ov, workDir)
+		defer rp.close()
+		ok, out := rp.confirm(abs, rf)
+		fmt.Println(out)
+		if ok {
+			fmt.Printf("VIOLATION property=%s replay=%s\n", rf.Property, abs)
+			return 1
+		}
+		fmt.Println("replay did not reproduce the violation natively")
+		return 0
+	}
+	// engine concrete mode: same SSA of the current tree, every input / clock reading / scheduler choice fixed
+	if rf.Dir == "aucoalesce" {
+		img, err := genTableImage(workDir)
+		if err != nil {
+			fmt.Fprintln(os.Stderr, "table image:", err)
+			return 2
+		}
+		ov[filepath.Join(repoDir, "aucoalesce", "zz_verif_tables_image.go")] = img
+	}
+	overlay := map[string][]byte{}
+	for virt, real := range ov {
+		c, err := os.ReadFile(real)
+		if err != nil {
+			fmt.Fprintln(os.Stderr, err)
+			return 2
+		}
+		overlay[virt] = c
+	}
+	known := map[string]bool{}
+	for _, k := range rf.Known {
+		known[k] = true
+	}
+	pkg := modPath
+	if rf.Dir != "." {
+		pkg = modPath + "/" + rf.Dir
+	}
+	cfg := interp.Config{RepoDir: repoDir, Overlay: overlay, Patterns: []string{"./" + rf.Dir}, Prop: rf.Property, KnownIDs: known,
+		Workers: 1, MaxSteps: 30_000_000, LoopCap: 20000, AllocCap: 1 << 16, SymIndexMax: 256, MaxConcretize: 4096,
+		SolverPath: "z3", SolverArgs: []string{"-in"}, QueryTimeoutMs: 20000, Clock: "const", Pkg: pkg, Entry: rf.Entry,
+		ActiveLabels: rf.Active, Params: rf.Params, Concrete: rf.Values, ConcreteChoices: rf.Choices, ConcreteSched: rf.Sched}
+	if rf.Clock != "" {
+		cfg.Clock = rf.Clock
+	}
+	if cfg.Params == nil {
+		cfg.Params = map[string]int64{}
+	}
+	// job-specific caps (allocation / unwinding) come from checks.json
+	if b, err := os.ReadFile(filepath.Join(verifDir, "checks.json")); err == nil {
+		var specs map[string]PropSpec
+		if json.Unmarshal(b, &specs) == nil {
+			for _, j := range specs[rf.Property].Jobs {
+				if j.Name == rf.Job {
+					if j.AllocCap > 0 {
+						cfg.AllocCap = j.AllocCap
+					}
+					if j.LoopCap > 0 {
+						cfg.LoopCap = j.LoopCap
+					}
+					if j.MaxSteps > 0 {
+						cfg.MaxSteps = j.MaxSteps
+					}
+				}
+			}
+		}
+	}
+	eng, err := interp.Load(cfg)
+	if err != nil {
+		fmt.Fprintln(os.Stderr, "cannot load /repo with the harness overlay:", err)
+		return 2
+	}
+	eng.Init()
+	if err := eng.Explore(); err != nil {
+		fmt.Fprintln(os.Stderr, err)
+		return 2
+	}
+	fmt.Printf("engine concrete mode: %d path(s), violations %v\n", eng.Sum.Paths, eng.Sum.ViolCount)
+	if eng.Sum.ViolCount[rf.Label] > 0 {
 		fmt.Printf("VIOLATION property=%s replay=%s\n", rf.Property, abs)
 		return 1
 	}
-	fmt.Println("replay did not reproduce the violation")
+	fmt.Println("replay did not reproduce the violation in the engine's concrete mode")
 	return 0
 }
